@@ -3,3 +3,7 @@ add("C01", "exploration", "round-trip monitor with independent reference model a
     "Runs the real XML writer and reader of the working tree on thousands of generated documents (every dtype, hostile text, all cardinality shapes) across all writer options, reader modes and entry points; an item-by-item model diff, an independent vocabulary walk of the written bytes, the strict reader's warning list and a representability oracle decide. Held means: no execution observed violated a clause; not a proof over all documents.",
     "Trusts lxml for the independent well-formedness parse; compares text after trimming; generator in vlib/gen.py bounds documents to <= 25 nodes (quick) and the hostile pool listed there.",
     "DESIGN.md §5 C01")
+add("C02", "exploration", "round-trip monitor with independent layout walker, JSON-vs-YAML differential and foreign dictionary emitter",
+    "Runs the real JSON/YAML writers and readers (string, file and dictionary entry points, strict and lenient) on generated documents; an exact item-by-item model diff, a layout walk of the re-parsed text and of DictWriter.to_dict's result against an independent 1.1 key table, a direct JSON-vs-YAML comparison and foreign-emitted dictionaries decide. Held = no observed execution violated a clause.",
+    "Trusts plain json / PyYAML safe_load as independent parsers; agreement with XML follows by transitivity from C01; locale variation of the text-mode open is not explored.",
+    "DESIGN.md §5 C02")
